@@ -26,6 +26,7 @@ pub struct RunLog {
     pub socket_calls: u64,
     /// what the public State accessors returned right after each publish
     pub tables: Vec<Result<TableSummary, String>>,
+    pub captured: Vec<super::spec::RawInj>,
 }
 
 /// A digest of `State` taken through its public accessors after a round was applied.
@@ -98,6 +99,7 @@ pub fn run_trace_with(cfg: &TraceCfg, spec: &WorldSpec, tweak: impl FnOnce(&mut 
         injected: vec![],
         socket_calls: 0,
         tables: vec![],
+        captured: vec![],
     };
     let tracer = match cfg.build() {
         Ok(t) => t,
@@ -139,6 +141,7 @@ pub fn run_trace_with(cfg: &TraceCfg, spec: &WorldSpec, tweak: impl FnOnce(&mut 
     log.events = w.events;
     log.rounds = w.rounds;
     log.injected = w.injected;
+    log.captured = w.captured;
     log.socket_calls = w.calls;
     log
 }
